@@ -196,7 +196,7 @@ def test_str(tid, pyver=None):
     return '%s (%s)' % (meth, mod_cls)
 
 
-STR_RE = re.compile(r'^\s*(\w+) \(([\w.]+)\)\s*$')
+STR_RE = re.compile(r'^\s*(\w+) \(([\w.]+)\)(?: \[[^\]]*\])?\s*$')
 
 
 def id_from_str(s):
